@@ -255,6 +255,9 @@ def expr_deep(tier, seed):
 
 def c05_runs(tier, seed):
     runs = expr_runs(tier, seed) + expr_deep(tier, seed) + expr_ld(tier, seed)
+    if tier == "thorough":   # the other compiler: catalogue + 40 random
+        runs += expr_runs(tier, seed, flavour="clang", scalars=("Q", "d"),
+                          nrandom=40, cases_per_tu=12000)
     runs += [RunSpec("pool", "Q", "plain", q(tier, 160, 5000))]
     return runs
 
@@ -1228,8 +1231,12 @@ def c03_runs(tier, seed):
              RunSpec("arith", "f", "plain", q(tier, 3360, 400000)),
              RunSpec("arith", "ld", "plain", q(tier, 3360, 400000))]
     runs += high_runs(tier, seed, scalars=("Q", "d", "ld"))
+    # the same histories compiled with the other compiler (clang++ -O2)
+    runs += [RunSpec("pool", "d", "clang", q(tier, 320, 20000))]
     if tier == "thorough":
-        runs += [RunSpec("pool", "f", "plain", 20000),
+        runs += [RunSpec("pool", "Q", "clang", 8000),
+                 RunSpec("arith", "d", "clang", 400000),
+                 RunSpec("pool", "f", "plain", 20000),
                  RunSpec("pool", "ld", "plain", 20000),
                  RunSpec("pool", "Q", "nochk", 6000, defines=("MAXO=6",),
                          params={"steps": 120})]
@@ -1325,7 +1332,8 @@ reg(Spec(
 def c14_runs(tier, seed):
     n = q(tier, 8000, 600000)
     return pool_runs(tier, seed, flavours=("nochk",)) + [
-        RunSpec("eval", "Q", "plain", n), RunSpec("eval", "d", "plain", n)] + (
+        RunSpec("eval", "Q", "plain", n), RunSpec("eval", "d", "plain", n),
+        RunSpec("pool", "d", "clang", q(tier, 320, 20000))] + (
         [RunSpec("pool", "d", "plain", 40000)] if tier == "thorough" else [])
 
 
